@@ -83,7 +83,7 @@ PROPS = {
                 assumptions=["reference classifier: counts of <, =, > among consecutive pairs",
                              "exhaustive up to 9 (quick) / 12 (thorough) pairs; longer vectors sampled"]),
     "C11": dict(bin="c11", oracle=False, exhaustive=True,
-                legs={"quick": [N], "thorough": [N]},
+                legs={"quick": [N], "thorough": [N, ASAN(0.02, shards=8), MIRI(0.0005, shards=16, **{"max-len": 12})]},
                 gates=[("counter_min", "guess_is_last_index", 1), ("counter_min", "guess_misses_binary_search", 1000),
                        ("counter_min", "lookups_via_interp1d", 1000), ("counter_min", "lookups_via_interp2d", 100),
                        ("hist_keys_min", "axis_class", 10), ("hist_keys_min", "elem", 4)],
